@@ -73,11 +73,15 @@ class JobRunner:
             if fid in self.active_known:
                 neg.append(z3.Not(zbool(region)) if not isinstance(region, bool)
                            else z3.BoolVal(not region))
-        r = solve.check(list(ctx.eng.pc) + neg, self.ob.z3_timeout, self.ob.cvc5_timeout,
-                        cross_check=(self.tier == 'thorough' and self.cfg.get('cross_check', False)),
-                        seed=self.seed)
         self.stats['queries'] += 1
         self.path_checks.append((label, cond))
+        st, m = ctx.eng.refute(neg, int(self.ob.z3_timeout * 1000))
+        cross = self.tier == 'thorough' and self.cfg.get('cross_check', False)
+        if st == 'unknown' or cross:
+            r = solve.check(list(ctx.eng.pc) + neg, self.ob.z3_timeout, self.ob.cvc5_timeout,
+                            cross_check=cross, seed=self.seed)
+        else:
+            r = solve.Result(st, zmodel=m, solver='z3-incremental')
         if r.status == 'unsat':
             self.stats['discharged'] += 1
             if len(neg) > 1:
@@ -134,9 +138,12 @@ class JobRunner:
                 continue
             ctx = path.value
             # ---- per-path validation against the native implementation
-            r = solve.z3_check(path.pc, 2.0, self.seed)
-            if r.status != 'sat' and solve._uses_strings(path.pc):
-                r = solve._WORKER.check(path.pc, 10.0)
+            if path.model is not None:
+                r = solve.Result('sat', zmodel=path.model, solver='z3-incremental')
+            else:
+                r = solve.z3_check(path.pc, 2.0, self.seed)
+                if r.status != 'sat' and solve._uses_strings(path.pc):
+                    r = solve._WORKER.check(path.pc, 10.0)
             if r.status == 'unsat':
                 continue        # dead path that the branch-time budget could not prune
             if r.status != 'sat':
